@@ -60,3 +60,56 @@ pub proof fn lemma_mul_limbs_all(s0: Seq<Felt>)
     lemma_limb_mul(al, bl); lemma_limb_mul(ah, bl); lemma_limb_mul(al, bh); lemma_limb_mul(ah, bh);
     lemma_mul64(ah, al, bh, bl);
 }
+/// T2 (P prime): a product of two field elements is 0 only if a factor is 0
+#[verifier::external_body]
+pub proof fn axiom_no_zero_divisors_m(a: int, b: int)
+    requires 0 <= a < P(), 0 <= b < P()
+    ensures fmul(a, b) == 0 <==> (a == 0 || b == 0) {}
+
+/// core of the u64 division check (stdlib div / mod / divmod): the limb equations enforced by the
+/// in-VM assertions force q = a / b and r = a % b, for ANY hinted (q, r)
+pub proof fn lemma_div_core(bh: int, bl: int, ah: int, al: int, q0: int, q1: int, r0: int, r1: int)
+    requires
+        0 <= bh < 0x1_0000_0000, 0 <= bl < 0x1_0000_0000, 0 <= ah < 0x1_0000_0000, 0 <= al < 0x1_0000_0000,
+        0 <= q0 < 0x1_0000_0000, 0 <= q1 < 0x1_0000_0000, 0 <= r0 < 0x1_0000_0000, 0 <= r1 < 0x1_0000_0000,
+        // q * b fits into 64 bits: the three carry checks
+        (bh * q0 + (bl * q0) / 0x1_0000_0000) / 0x1_0000_0000 == 0,
+        (bl * q1 + (bh * q0 + (bl * q0) / 0x1_0000_0000) % 0x1_0000_0000) / 0x1_0000_0000 == 0,
+        fmul(bh, q1) == 0,
+        // r < b
+        r1 * 0x1_0000_0000 + r0 < bh * 0x1_0000_0000 + bl,
+        // q * b + r == a, limb by limb, no carry out
+        (r0 + (bl * q0) % 0x1_0000_0000) % 0x1_0000_0000 == al,
+        (((r0 + (bl * q0) % 0x1_0000_0000) / 0x1_0000_0000) + (bl * q1 + (bh * q0 + (bl * q0) / 0x1_0000_0000) % 0x1_0000_0000) % 0x1_0000_0000 + r1) % 0x1_0000_0000 == ah,
+        (((r0 + (bl * q0) % 0x1_0000_0000) / 0x1_0000_0000) + (bl * q1 + (bh * q0 + (bl * q0) / 0x1_0000_0000) % 0x1_0000_0000) % 0x1_0000_0000 + r1) / 0x1_0000_0000 == 0,
+    ensures
+        bh * 0x1_0000_0000 + bl > 0,
+        q1 * 0x1_0000_0000 + q0 == (ah * 0x1_0000_0000 + al) / (bh * 0x1_0000_0000 + bl),
+        r1 * 0x1_0000_0000 + r0 == (ah * 0x1_0000_0000 + al) % (bh * 0x1_0000_0000 + bl),
+{
+    let B = 0x1_0000_0000int;
+    let p0 = bl * q0; let p1 = bh * q0; let p2 = bl * q1; let p3 = bh * q1;
+    lemma_limb_mul(bl, q0); lemma_limb_mul(bh, q0); lemma_limb_mul(bl, q1); lemma_limb_mul(bh, q1);
+    axiom_no_zero_divisors_m(bh, q1);
+    assert(p3 == 0) by (nonlinear_arith) requires p3 == bh * q1, bh == 0 || q1 == 0;
+    let c1 = p1 + p0 / B;
+    let c2 = p2 + c1 % B;
+    assert(c1 < B && c2 < B);
+    let a = ah * B + al; let b = bh * B + bl; let q = q1 * B + q0; let r = r1 * B + r0;
+    lemma_mul64(q1, q0, bh, bl);
+    assert(q * b == q0 * bl + B * (q1 * bl) + B * (q0 * bh) + 0x1_0000_0000_0000_0000 * (q1 * bh));
+    assert(q0 * bl == p0 && q1 * bl == p2 && q0 * bh == p1 && q1 * bh == p3) by (nonlinear_arith)
+        requires p0 == bl * q0, p1 == bh * q0, p2 == bl * q1, p3 == bh * q1;
+    assert(q * b == p0 % B + B * c2);
+    assert(q * b + r == a);
+    assert(b * q + r == a) by (nonlinear_arith) requires q * b + r == a;
+    vstd::arithmetic::div_mod::lemma_fundamental_div_mod_converse(a, b, q, r);
+}
+/// the stack seen as `top` followed by the original stack from position c on, zeros below, cut at depth d
+pub open spec fn stk(top: Seq<Felt>, s0: Seq<Felt>, c: int, d: int) -> Seq<Felt> {
+    Seq::new(d as nat, |i: int| if i < top.len() { top[i] } else if i - top.len() + c < s0.len() { s0[i - top.len() + c] } else { fe(0) })
+}
+pub open spec fn max16(d: int) -> int { if d >= 16 { d } else { 16 } }
+/// depth after a net change `delta` whose lowest intermediate value was `mind` (zeros are padded in
+/// whenever the depth would fall below 16 and stay on the stack afterwards)
+pub open spec fn depth_after(len: int, delta: int, mind: int) -> int { len + delta + (if 16 - len - mind > 0 { 16 - len - mind } else { 0 }) }
